@@ -112,6 +112,26 @@ def extract(tree):
                     ("while(r<end)", 1), ("uint8_t*r=bufstart,*end=r+buflen;", 1), ("int32_tindent_col=(int32_t)top.column-1;", 1)):
         if body.count(frag) != n:
             raise ExtractError("stringend: loop bound / indent column `%s` expected %d time(s), found %d" % (frag, n, body.count(frag)))
+    # ---- the three stacks: growth policy of DEF_PARSER_STACK, of the string branch of parser/insert, of clone
+    m = re.search(r"#define\s+DEF_PARSER_STACK\(NAME,\s*T,\s*STACK,\s*STACKCOUNT,\s*STACKCAP\)((?:[^\n]*\\\n)*[^\n]*\n)", raw)
+    if not m:
+        raise ExtractError("DEF_PARSER_STACK not found")
+    mac = norm(m.group(1).replace("\\\n", " "))
+    mm = re.fullmatch(r"staticvoidNAME\(JanetParser\*p,Tx\)\{size_toldcount=p->STACKCOUNT;size_tnewcount=oldcount\+1;if\(newcount>p->STACKCAP\)\{T\*next;"
+                      r"size_tnewcap=(\d+)\*newcount;next=janet_realloc\(p->STACK,sizeof\(T\)\*newcap\);if\(NULL==next\)\{JANET_OUT_OF_MEMORY;\}"
+                      r"p->STACK=next;p->STACKCAP=newcap;\}p->STACK\[oldcount\]=x;p->STACKCOUNT=newcount;\}", mac)
+    if not mm:
+        raise ExtractError("DEF_PARSER_STACK: body not recognised: %s" % mac[:300])
+    c["stackGrowFactor"] = int(mm.group(1))
+    inst = re.findall(r"^DEF_PARSER_STACK\((\w+),\s*[\w ]+,\s*(\w+),\s*(\w+),\s*(\w+)\)", src, re.M)
+    if sorted(inst) != sorted([("push_buf", "buf", "bufcount", "bufcap"), ("push_arg", "args", "argcount", "argcap"), ("_pushstate", "states", "statecount", "statecap")]):
+        raise ExtractError("DEF_PARSER_STACK instances changed: %r" % inst)
+    # no other writer of a capacity / allocation of a stack than: the macro, init (0), clone (= count), the string branch of parser/insert
+    capw = re.findall(r"(?:p|parser|dest)->(bufcap|argcap|statecap)\s*=\s*([^;]+);", src)
+    want = sorted([("argcap", "0"), ("bufcap", "0"), ("statecap", "0"), ("bufcap", "dest->bufcount"), ("statecap", "dest->statecount"), ("argcap", "dest->argcount"),
+                   ("bufcap", "newcap")])
+    if sorted((a, b.strip()) for a, b in capw) != want:
+        raise ExtractError("capacity assignments changed: %r" % capw)
     # ---- flags
     for name in ("PFLAG_CONTAINER", "PFLAG_BUFFER", "PFLAG_PARENS", "PFLAG_SQRBRACKETS", "PFLAG_CURLYBRACKETS", "PFLAG_STRING", "PFLAG_LONGSTRING",
                  "PFLAG_READERMAC", "PFLAG_ATSYM", "PFLAG_COMMENT", "PFLAG_TOKEN", "PFLAG_INSTRING", "PFLAG_END_CANDIDATE", "JANET_PARSER_DEAD",
@@ -166,6 +186,11 @@ def extract(tree):
                  "elseif(s->flags&(PFLAG_STRING|PFLAG_LONGSTRING)){", "janet_panic(\"cannotinsertvalueintoparser\");"):
         if frag not in body:
             raise ExtractError("cfun_parse_insert: shape changed (%s)" % frag)
+    mi = re.search(r"size_tnewcount=p->bufcount\+slen;if\(p->bufcap<newcount\)\{size_tnewcap=(\d+)\*newcount;p->buf=janet_realloc\(p->buf,newcap\);"
+                   r"if\(p->buf==NULL\)\{JANET_OUT_OF_MEMORY;\}p->bufcap=newcap;\}safe_memcpy\(p->buf\+p->bufcount,str,slen\);p->bufcount=newcount;", body)
+    if not mi:
+        raise ExtractError("cfun_parse_insert: string branch (buffer growth) not recognised")
+    c["insertGrowFactor"] = int(mi.group(1))
     fr = re.search(r"struct\s+JanetParseState\s*\{([^}]*)\}", src)
     if not fr:
         raise ExtractError("struct JanetParseState not found")
@@ -343,5 +368,8 @@ def render(tree):
     L.append("abbrev ppItemSep : Nat := %d" % c["ppItemSep"])
     L.append("abbrev ppKvSep : Nat := %d" % c["ppKvSep"])
     L.append("abbrev jdnDefaultDepth : Nat := %d" % c["jdnDefaultDepth"])
+    L.append("/-- `DEF_PARSER_STACK`: `if (newcount > cap) newcap = stackGrowFactor * newcount`; string branch of `parser/insert`: `if (cap < newcount) newcap = insertGrowFactor * newcount` -/")
+    L.append("abbrev stackGrowFactor : Nat := %d" % c["stackGrowFactor"])
+    L.append("abbrev insertGrowFactor : Nat := %d" % c["insertGrowFactor"])
     L.append("\nend JanetModel.Gen.Parse")
     return "\n".join(L) + "\n"
